@@ -33,6 +33,7 @@ UNIT_PROPS = {
     "wire_streams": ["C13"],
     "dag_remove": ["C06"],
     "policy_config": ["C12"],
+    "identity_version": ["C19"],
     "fetch_validate": ["C01"],
     "service_inventory": ["C11"],
 }
@@ -93,11 +94,11 @@ PROPS = {
         "not_decided": "The round trip is relative to the ASSUMED text model (unit refs_text header): BufRead::lines undoes one-\\n-terminated-line-each for lines without \\n/\\r, Display/FromStr of Oid are inverse and hex has no space, a valid RefString has no newline and re-validates to itself, BTreeMap::iter yields every entry once in an order determined by the contents, String::into_bytes is UTF-8 encoding. 'Changing any ref makes verification fail' reduces to ed25519 unforgeability and injectivity of canonical(): assumed, not proved.",
     },
     "C19": {
-        "vx": ["identity", "cob_identity"],
+        "vx": ["identity", "cob_identity", "identity_version"],
         "kx": [],
-        "technique": "Verus contracts on the extracted Delegates::new (its try_fold closure lifted verbatim to a named fn with a contract; std's try_fold default body transcribed and verified with a loop invariant), Threshold::new, RawDoc::verified, Delegates/Doc accessors: every Doc constructed satisfies valid() (1..=255 distinct delegates, 1 <= threshold <= #delegates)",
+        "technique": "Verus contracts on the extracted Delegates::new (its try_fold closure lifted verbatim to a named fn with a contract; std's try_fold default body transcribed and verified with a loop invariant), Threshold::new, RawDoc::verified, Delegates/Doc accessors: every Doc constructed satisfies valid() (1..=255 distinct delegates, 1 <= threshold <= #delegates); Version::new / Version::deserialize against `supported`",
         "explanation": "Delegates::new is proved to return Ok only with a duplicate-free list of 1..=255 delegates containing exactly the delegates given; Threshold::new is Ok exactly for 1 <= t <= min(255, #delegates); RawDoc::verified returns Ok only with a Doc satisfying valid() whose delegates/threshold/visibility are those of the raw document. Every constructor of Doc in doc.rs goes through these. From git: <Identity as store::Cob>::from_root (unit cob_identity) returns an identity only when the blob id of the root document it loaded equals the id of the repository it was read in (and the identity's id is that blob id).",
-        "not_decided": "Version check, serde/JSON decoding (that Deserialize goes through RawDoc::verified is by inspection of the serde attribute), encode/decode round-trip and that Repository::init derives the RepoId as the git blob hash of the canonical encoding are outside Verus (serde_json, git2): not decided (only the check on the reading side, from_root, is). Doc::load_at and Identity::new are assumed by contract. slice::contains, NonEmpty::from_vec assumed by contract; Iterator::try_fold is represented by a transcription of its default body.",
+        "not_decided": "The version check is decided in unit identity_version (Version::new accepts exactly 1..=latest; <Version as Deserialize>::deserialize accepts only the number that was read, relative to a stand-in for serde's integer reads and NonZeroU32; that IDENTITY_VERSION is 1 is assumed -- it is built with an unsafe constructor); serde/JSON decoding of the rest (that Deserialize goes through RawDoc::verified is by inspection of the serde attribute), encode/decode round-trip and that Repository::init derives the RepoId as the git blob hash of the canonical encoding are outside Verus (serde_json, git2): not decided (only the check on the reading side, from_root, is). Doc::load_at and Identity::new are assumed by contract. slice::contains, NonEmpty::from_vec assumed by contract; Iterator::try_fold is represented by a transcription of its default body.",
     },
     "C22": {
         "vx": ["crdt"],
